@@ -265,16 +265,20 @@ theorem threadItem_running (p : Params) (l : Loop) (i : Nat) (c : Conn) (it : It
   · simp only
     split <;> simp
 
-theorem threadDeny_running (p : Params) (hg : GoodCfg p.cfg) (l : Loop) (i : Nat) (c : Conn) (it : Item) (gone : Bool) :
-    (threadDeny p l i c it gone).running = l.running := by
+theorem threadDeny_good (p : Params) (hg : GoodCfg p.cfg) (l : Loop) (i : Nat) (c : Conn) (it : Item) (gone : Bool) :
+    threadDeny p l i c it gone = setConn l i (closeNoHook (doDeny c it gone).conn) := by
   unfold threadDeny
   simp only
   split
-  · simp
+  · rfl
   · rename_i e he
     have := (doDeny_esc c it gone e he).1
     subst this
-    simp [caught_of_exception hg.thrDeny (c := .connClosed) rfl]
+    rw [if_pos (caught_of_exception hg.thrDeny (c := .connClosed) rfl)]
+
+theorem threadDeny_running (p : Params) (hg : GoodCfg p.cfg) (l : Loop) (i : Nat) (c : Conn) (it : Item) (gone : Bool) :
+    (threadDeny p l i c it gone).running = l.running := by
+  rw [threadDeny_good p hg]; rfl
 
 theorem threadStep_running (p : Params) (hg : GoodCfg p.cfg) (l : Loop) (ev : Ev) :
     (threadStep p l ev).running = l.running := by
@@ -362,7 +366,9 @@ theorem threadDeny_frame (p : Params) (l : Loop) (i j : Nat) (h : i ≠ j) (c : 
   simp only
   split
   · simp [h]
-  · split <;> simp [h]
+  · split
+    · simp [h]
+    · split <;> simp [h]
 
 theorem step_frame (p : Params) (l : Loop) (ev : Ev) (j : Nat) (h : ev.conn ≠ j) :
     (step p l ev).conns[j]? = l.conns[j]? := by
@@ -464,7 +470,9 @@ theorem step_objects (p : Params) (l : Loop) (ev : Ev) : (step p l ev).objects =
                   simp only
                   split
                   · simp
-                  · split <;> simp
+                  · split
+                    · simp
+                    · split <;> simp
   · unfold muxStep
     split
     · rfl
@@ -675,31 +683,24 @@ theorem threadStep_inv (p : Params) (hg : GoodCfg p.cfg) (l : Loop) (h : TInv p 
                 obtain ⟨hinv, hb', hconns⟩ := h.accept hci hcond.2 hns' ht
                 exact threadItem_inv p hg _ hinv i c (by simpa [hconns] using hci) (by simpa using hb') it gone raw hraw
               · -- denied: closed by the acceptor, never held a worker
-                unfold threadDeny
+                rw [threadDeny_good p hg]
                 have hnb' : i ∉ l.busy := by simpa using hnb
-                have key : TInv p (setConn { l with seen := l.seen ++ [i] } i (closeNoHook (doDeny c it gone).conn)) := by
-                  refine ⟨h.nodup, ?_, h.nozombie, h.idle_le, h.total_ge⟩
-                  intro j
-                  simp only [setConn_busy, setConn_seen, List.mem_append, List.mem_singleton]
-                  by_cases hij : i = j
-                  · subst hij
-                    rw [setConn_get_self _ i _ c (by simpa using hci)]
-                    constructor
-                    · intro hh; exact absurd hh hnb'
-                    · rintro ⟨_, c', hc', hp'⟩
-                      simp only [Option.some.injEq] at hc'; subst hc'; simp at hp'
-                  · rw [setConn_get_ne _ i _ j hij]
-                    constructor
-                    · intro hh; have := (h.live j).1 hh; exact ⟨Or.inl this.1, this.2⟩
-                    · rintro ⟨hh | hh, hx⟩
-                      · exact (h.live j).2 ⟨hh, hx⟩
-                      · exact absurd hh.symm hij
-                simp only
-                split
-                · exact key
-                · split
-                  · exact key
-                  · exact ⟨key.nodup, key.live, key.nozombie, key.idle_le, key.total_ge⟩
+                refine ⟨h.nodup, ?_, h.nozombie, h.idle_le, h.total_ge⟩
+                intro j
+                simp only [setConn_busy, setConn_seen, List.mem_append, List.mem_singleton]
+                by_cases hij : i = j
+                · subst hij
+                  rw [setConn_get_self _ i _ c (by simpa using hci)]
+                  constructor
+                  · intro hh; exact absurd hh hnb'
+                  · rintro ⟨_, c', hc', hp'⟩
+                    simp only [Option.some.injEq] at hc'; subst hc'; simp at hp'
+                · rw [setConn_get_ne _ i _ j hij]
+                  constructor
+                  · intro hh; have := (h.live j).1 hh; exact ⟨Or.inl this.1, this.2⟩
+                  · rintro ⟨hh | hh, hx⟩
+                    · exact (h.live j).2 ⟨hh, hx⟩
+                    · exact absurd hh.symm hij
 
 /-- multiplex server: the selector holds exactly the active connections; nothing is abandoned -/
 structure MInv (l : Loop) : Prop where
@@ -899,7 +900,11 @@ theorem step_mem_frame (p : Params) (l : Loop) (ev : Ev) (j : Nat) (h : ev.conn 
                   · exact base
                   · split
                     · exact base
-                    · exact base
+                    · split
+                      · refine ⟨base.1, ?_, base.2.2.1, base.2.2.2⟩
+                        simp [List.mem_append, hji]
+                      · refine ⟨base.1, ?_, base.2.2.1, base.2.2.2⟩
+                        simp [List.mem_append, hji]
   · unfold muxStep
     split
     · exact MemFrame.refl l j
